@@ -4,7 +4,7 @@ import random as _r
 from pv import common, gen, detsched
 
 RULE = ("seeded acyclic factor graphs (trees and forests, 1-7 variables, domains 2-3, unary/binary/ternary factors, "
-        "variable costs, integer tables, min and max) with a UNIQUE optimum enforced by brute force; run with "
+        "variable costs, integer tables, min and max; a fifth are agreement chains of 4-7 two-valued variables with side leaves, a weak preference near one end and a contradicting one exactly twice as strong at the far end) with a UNIQUE optimum enforced by brute force; run with "
         "maxsum (synchronous) and amaxsum, damping=0 noise=0, start_messages leafs/leafs_vars/all, other "
         "parameters default; budget: 4*(diameter+SAME_COUNT+3) rounds (sync) / quiescence or 300*#links "
         "deliveries (async); non-trivial = factor-graph diameter >= 3 and >= 2 factors; distinct by "
@@ -70,7 +70,11 @@ def worker(job):
     seed, tier = job["seed"], job["tier"]
     for i in range(job["lo"], job["hi"]):
         rng = common.rng_for(seed, "C05", i)
-        case = gen.gen_tree_factor_case(rng, max_vars=7 if rng.random() < 0.6 else 5)
+        if i % 5 == 4:
+            # long agreement chains where a strong far-away preference overrides a weak near one
+            case = gen.gen_propagation_chain_case(rng)
+        else:
+            case = gen.gen_tree_factor_case(rng, max_vars=7 if rng.random() < 0.6 else 5)
         if case is None:
             R.count("no_unique_optimum_instance")
             continue
@@ -82,6 +86,7 @@ def worker(job):
             stability = rng.choice([None, None, 0.0])
             res, pool = run_one(case, algo, sm, sseed, stability=stability)
             R.bump("stability", "default(0.1)" if stability is None else "0.0")
+            R.bump("families", case.get("shape", "?"))
             nontrivial = res["diameter"] >= 3 and len(case["constraints"]) >= 2
             R.case(common.stable_hash([csig, algo, sm, res["trace"]]), nontrivial,
                    sample={"case": case, "algo": algo, "start_messages": sm, "bias": res["bias"],
